@@ -1420,13 +1420,64 @@ func (m *mach) builtin(fr *mframe, b *ssa.Builtin, args []mv, at ssa.Instruction
 	case "print", "println":
 		return mNil
 	case "min", "max":
-		if len(args) == 2 {
-			if x, ok := args[0].(int64); ok {
-				if y, ok := args[1].(int64); ok {
-					if (b.Name() == "min") == (x < y) {
-						return x
+		// any number of operands of one ordered type (integers, floats without NaN, strings)
+		if len(args) >= 1 {
+			best := args[0]
+			ok := true
+			for _, a := range args[1:] {
+				var less bool
+				switch x := a.(type) {
+				case int64:
+					y, isInt := best.(int64)
+					ok = ok && isInt
+					less = x < y
+				case uint64:
+					y, isUint := best.(uint64)
+					ok = ok && isUint
+					less = x < y
+				case float64:
+					y, isFloat := best.(float64)
+					ok = ok && isFloat && x == x && y == y
+					less = x < y
+				case string:
+					y, isStr := best.(string)
+					ok = ok && isStr
+					less = x < y
+				default:
+					ok = false
+				}
+				if !ok {
+					break
+				}
+				if (b.Name() == "min") == less {
+					best = a
+				}
+			}
+			if ok {
+				switch best.(type) {
+				case int64, uint64, float64, string:
+					return best
+				}
+			}
+		}
+	case "clear":
+		switch x := args[0].(type) {
+		case mNilT:
+			return mNil
+		case *mMap:
+			if x != nil {
+				x.k = map[string]mv{}
+				x.v = map[string]mv{}
+				x.keys = nil
+			}
+			return mNil
+		case mSlice:
+			if call, ok := at.(ssa.CallInstruction); ok && len(call.Common().Args) == 1 {
+				if st, ok := call.Common().Args[0].Type().Underlying().(*types.Slice); ok {
+					for i := range x.arr {
+						x.arr[i] = m.zero(st.Elem())
 					}
-					return y
+					return mNil
 				}
 			}
 		}
